@@ -4,7 +4,40 @@
 import json, os, subprocess, sys
 from concurrent.futures import ThreadPoolExecutor
 ROOT = os.path.dirname(os.path.dirname(os.path.abspath(__file__)))
+args = [a for a in sys.argv[1:] if a != '--scratch']
+SCRATCH = '--scratch' in sys.argv or os.environ.get('TRY_SEED_SCRATCH') == '1'
+sys.argv = [sys.argv[0]] + args
 patch = os.path.abspath(sys.argv[1])
+if SCRATCH:
+    # same checks against a scratch copy of the sources with the patch applied (used while other jobs read /repo)
+    sys.path.insert(0, ROOT)
+    from mythverif import selftest
+    import shutil
+    d = selftest.scratch_copy('/repo')
+    try:
+        r = subprocess.run(['patch', '-p1', '-s', '-f', '-d', d, '-i', patch], capture_output=True, text=True)
+        if r.returncode != 0:
+            sys.exit('patch does not apply: ' + r.stdout[-300:])
+        props = sys.argv[2:] or [c['property_id'] for c in json.load(open(os.path.join(ROOT, 'MANIFEST.json')))['checks']]
+
+        def run_s(p):
+            r = subprocess.run([os.path.join(ROOT, 'check'), p, 'quick'], capture_output=True, text=True, cwd=ROOT,
+                               env=dict(os.environ, MYTHVERIF_NO_EVIDENCE='1', MYTHVERIF_REPO=d))
+            return p, r.returncode, r.stdout
+        with ThreadPoolExecutor(max_workers=6) as ex:
+            res = list(ex.map(run_s, props))
+    finally:
+        shutil.rmtree(d, ignore_errors=True)
+    fired = []
+    for p, rc, out in res:
+        if rc != 0:
+            fired.append(p)
+            print('== %s rc=%d' % (p, rc))
+            for l in out.splitlines():
+                if l.startswith(('VIOLATION', '  rule', '  at', 'ANALYSIS-BROKEN')):
+                    print('   ' + l[:260])
+    print('FIRED:', ' '.join(fired) if fired else 'none')
+    sys.exit(0)
 props = sys.argv[2:] or [c['property_id'] for c in json.load(open(os.path.join(ROOT, 'MANIFEST.json')))['checks']]
 st = subprocess.run(['git', '-C', '/repo', 'status', '--porcelain', '--untracked-files=no'], capture_output=True, text=True).stdout
 if st.strip():
